@@ -363,28 +363,36 @@ theorem parity_bit_is_compared (o : GroupOps α) (H : TagHash) (q s rest : Bytes
     checkOutputPubkey o H q s ((c0 ^^^ 1) :: rest) = .ok false :=
   parity_flip q s rest c0 h
 
-/-- T5 (`tree_helper` answers script trees and nothing else): a Python value is answered iff it is a well-formed
-    script tree — every node a list or tuple of ONE `(int version, list script)` pair or of TWO well-formed nodes —
-    and then the answer is `treeHelper` of the `Tree` it spells; every `Tree`, spelled with lists or with tuples, is
-    answered with exactly the `Tree`-level result (so T1b / T3m speak about the public function). -/
+/-- T5 (`tree_helper` answers script trees of depth ≤ 128 and nothing else): a Python value is answered iff it is a
+    well-formed script tree — every node a list or tuple of ONE `(int version, list script)` pair or of TWO well-formed
+    nodes — nested no deeper than `MAX_TREE_DEPTH`, and then the answer is `treeHelper` of the `Tree` it spells; every
+    `Tree` of depth ≤ 128, spelled with lists or with tuples, is answered with exactly the `Tree`-level result (so
+    T1b / T3m speak about the public function), and every deeper one is refused ("at most 128 nesting levels"). -/
 theorem tree_helper_answers_exactly_trees (H : TagHash) (v : PyVal) :
-    (∀ r, treeHelperPy H v = .ok r ↔ ∃ t, WellFormed v t ∧ r = treeHelper H t) ∧
-    ((∃ e, treeHelperPy H v = .error e) ↔ ¬ ∃ t, WellFormed v t) ∧
-    (∀ (l : Bool) (n : Nat) (t : Tree), treeHelperPy H (t.toPy l n) = .ok (treeHelper H t)) := by
-  refine ⟨treeHelperPy_ok_iff H v, ?_, treeHelperPy_toPy H⟩
-  constructor
-  · rintro ⟨e, he⟩ ⟨t, ht⟩
-    rw [(treeHelperPy_ok_iff H v _).mpr ⟨t, ht, rfl⟩] at he; cases he
-  · intro hn
-    cases h : treeHelperPy H v with
-    | error e => exact ⟨e, rfl⟩
-    | ok r => obtain ⟨t, ht, -⟩ := (treeHelperPy_ok_iff H v r).mp h; exact absurd ⟨t, ht⟩ hn
+    (∀ r, treeHelperPy H v = .ok r ↔ ∃ t, WellFormed v t ∧ t.depth ≤ MAX_TREE_DEPTH ∧ r = treeHelper H t) ∧
+    ((∃ e, treeHelperPy H v = .error e) ↔ ¬ ∃ t, WellFormed v t ∧ t.depth ≤ MAX_TREE_DEPTH) ∧
+    (∀ t, WellFormed v t → MAX_TREE_DEPTH < t.depth → treeHelperPy H v = .error .deep) ∧
+    (∀ (l : Bool) (n : Nat) (t : Tree),
+      (t.depth ≤ MAX_TREE_DEPTH → treeHelperPy H (t.toPy l n) = .ok (treeHelper H t)) ∧
+      (MAX_TREE_DEPTH < t.depth → treeHelperPy H (t.toPy l n) = .error .deep)) := by
+  refine ⟨treeHelperPy_ok_iff H v, ?_, ?_, treeHelperPy_toPy H⟩
+  · constructor
+    · rintro ⟨e, he⟩ ⟨t, ht, hd⟩
+      rw [(treeHelperPy_ok_iff H v _).mpr ⟨t, ht, hd, rfl⟩] at he; cases he
+    · intro hn
+      cases h : treeHelperPy H v with
+      | error e => exact ⟨e, rfl⟩
+      | ok r => obtain ⟨t, ht, hd, -⟩ := (treeHelperPy_ok_iff H v r).mp h; exact absurd ⟨t, ht, hd⟩ hn
+  · intro t hw hd
+    unfold treeHelperPy; rw [toTree_deep hw hd]; rfl
 
 /-- T5r (which refusal): `tree_helper([])`, `()`, a node of three or more elements, an `int`, `None`/`str`/`bytes`
     → "invalid script tree node"; a one-element node whose element is no 2-sequence (`[[leaf]]`, `[None]`, `[(v,)]`,
     `["OP_1"]`) → "invalid script tree leaf"; a pair whose version is no `int` (or a `bool`) → TypeError on the version;
-    a script that is no list (bytes, tuple, None) → TypeError on the script; a malformed RIGHT subtree is refused as
-    well as a left one, and nothing after a refusal is read; every falsy value is refused. -/
+    a script that is no list (bytes, tuple, None) → TypeError on the script; below a branch at depth `d ≤ 128` the walk
+    goes one level down, left subtree wholly first, and its first refusal is the answer (nothing after it is read);
+    ANY value met deeper than `MAX_TREE_DEPTH` is refused for its depth before its shape is looked at; every falsy
+    value is refused. -/
 theorem tree_helper_refusals (H : TagHash) (l l' : Bool) (k : Nat) (b : Bytes) (z : Int) (a : Bool) (x y : PyVal) :
     treeHelperPy H (.nil l) = .error .node ∧ treeHelperPy H (.many l k) = .error .node ∧
     treeHelperPy H (.int z) = .error .node ∧ treeHelperPy H (.atom a) = .error .node ∧
@@ -394,44 +402,48 @@ theorem tree_helper_refusals (H : TagHash) (l l' : Bool) (k : Nat) (b : Bytes) (
     treeHelperPy H (.one l (.two l' (.atom a) y)) = .error .vtype ∧
     treeHelperPy H (.one l (.two l' (.int z) (.atom a))) = .error .stype ∧
     treeHelperPy H (.one l (.two l' (.int z) (.two false x y))) = .error .stype ∧
-    (∀ e, treeHelperPy H x = .error e → treeHelperPy H (.two l x y) = .error e) ∧
-    (∀ r e, treeHelperPy H x = .ok r → treeHelperPy H y = .error e → treeHelperPy H (.two l x y) = .error e) ∧
+    (∀ d e, d ≤ MAX_TREE_DEPTH → x.toTreeAt (d + 1) = .error e → (PyVal.two l x y).toTreeAt d = .error e) ∧
+    (∀ d t e, d ≤ MAX_TREE_DEPTH → x.toTreeAt (d + 1) = .ok t → y.toTreeAt (d + 1) = .error e →
+      (PyVal.two l x y).toTreeAt d = .error e) ∧
+    (∀ d (v : PyVal), MAX_TREE_DEPTH < d → v.toTreeAt d = .error .deep) ∧
     (∀ v : PyVal, v.truthy = false → treeHelperPy H v = .error .node) := by
-  refine ⟨rfl, rfl, rfl, rfl, rfl, rfl, rfl, rfl, rfl, rfl, rfl, rfl, rfl, ?_, ?_, ?_⟩
-  · intro e he
-    unfold treeHelperPy at he ⊢
-    cases hx : x.toTree with
-    | ok t => rw [hx] at he; cases he
-    | error e' => rw [hx] at he; cases he; simp [PyVal.toTree, hx, Except.map]
-  · intro r e hr he
-    unfold treeHelperPy at hr he ⊢
-    cases hx : x.toTree with
-    | error e' => rw [hx] at hr; cases hr
-    | ok t =>
-      cases hy : y.toTree with
-      | ok t' => rw [hy] at he; cases he
-      | error e' => rw [hy] at he; cases he; simp [PyVal.toTree, hx, hy, Except.map]
+  refine ⟨rfl, rfl, rfl, rfl, rfl, rfl, rfl, rfl, rfl, rfl, rfl, rfl, rfl, ?_, ?_, ?_, ?_⟩
+  · intro d e hd hx
+    have : ¬ d > MAX_TREE_DEPTH := by omega
+    simp only [PyVal.toTreeAt, this, if_false, hx]
+  · intro d t e hd hx hy
+    have : ¬ d > MAX_TREE_DEPTH := by omega
+    simp only [PyVal.toTreeAt, this, if_false, hx, hy]
+  · intro d v hd
+    have : d > MAX_TREE_DEPTH := hd
+    cases v <;> (unfold PyVal.toTreeAt; try split) <;> simp only [this, if_true]
   · intro v hv; unfold treeHelperPy; rw [toTree_falsy v hv]; rfl
 
-/-- T5e (the entry points on Python values): on a well-formed tree `output_pubkey` / `output_prvkey` /
-    `input_script_sig` are the `Tree`-level functions T1–T3 are stated about; a truthy value that is no tree is refused
-    by all three with `tree_helper`'s refusal; a falsy one (`None`, `[]`, `()`, `0`, `""`) is key-path-only for the first
-    two and refused by the third.  (`hk`: the internal key, if any, is 33 or 65 octets — `_sec_from_key` judges other
-    lengths BEFORE the tree is walked, and reads 32 octets as a private key: outside the model.) -/
+/-- T5e (the entry points on Python values): on a well-formed tree of depth ≤ 128 `output_pubkey` / `output_prvkey` /
+    `input_script_sig` are the `Tree`-level functions T1–T3 are stated about; a truthy value that is no such tree (a
+    well-formed tree nested deeper than 128 included: refusal `deep`) is refused by all three with `tree_helper`'s
+    refusal; a falsy one (`None`, `[]`, `()`, `0`, `""`) is key-path-only for the first two and refused by the third.
+    (`hk`: the internal key, if any, is 33 or 65 octets — `_sec_from_key` judges other lengths BEFORE the tree is
+    walked, and reads 32 octets as a private key: outside the model.) -/
 theorem entry_points_on_python_values (o : GroupOps α) (H : TagHash) (sec : Option Bytes) (v : PyVal) (d i : Int)
     (hk : secLenBad sec = false) :
-    (∀ t, WellFormed v t →
+    (∀ t, WellFormed v t → t.depth ≤ MAX_TREE_DEPTH →
       outputPubkeyPy o H sec v = outputPubkey o H sec (some t) ∧
       outputPrvkeyPy o H d v = outputPrvkey o H d (some t) ∧
       inputScriptSigPy o H sec v i = inputScriptSig o H sec t i) ∧
     (∀ e, v.truthy = true → v.toTree = .error e →
       outputPubkeyPy o H sec v = .error e ∧ outputPrvkeyPy o H d v = .error e ∧
       inputScriptSigPy o H sec v i = .error e) ∧
+    (∀ t, WellFormed v t → MAX_TREE_DEPTH < t.depth →
+      outputPubkeyPy o H sec v = .error .deep ∧ outputPrvkeyPy o H d v = .error .deep ∧
+      inputScriptSigPy o H sec v i = .error .deep) ∧
     (v.truthy = false →
       outputPubkeyPy o H sec v = outputPubkey o H sec none ∧ outputPrvkeyPy o H d v = outputPrvkey o H d none ∧
       ∃ e, inputScriptSigPy o H sec v i = .error e) := by
-  refine ⟨fun t hw => entry_points_wellFormed o H sec v t d i hw hk,
-    fun e ht he => entry_points_malformed o H sec v e d i ht he hk, fun hf => ?_⟩
+  refine ⟨fun t hw hd => entry_points_wellFormed o H sec v t d i hw hd hk,
+    fun e ht he => entry_points_malformed o H sec v e d i ht he hk,
+    fun t hw hd => entry_points_malformed o H sec v .deep d i (wellFormed_truthy hw) (toTree_deep hw hd) hk,
+    fun hf => ?_⟩
   obtain ⟨h1, h2, h3, h4⟩ := entry_points_falsy o H sec v d i hf
   refine ⟨h1, h2, ?_⟩
   cases h : outputPubkey o H sec none with
@@ -464,8 +476,8 @@ example : assertP2tr (p2trScript (List.replicate 32 7)) = none ∧ assertP2tr (p
 
 -- T5: `[[(0xC1, ["OP_1"])], ((-1, ["OP_2"]),)]` is a tree (versions read as 0xC0 and 0xFE); `[leaf, leaf, leaf]`, `[]`, `[[leaf]]` are not
 example : WellFormed (.two true (.one true (.two false (.int 0xC1) (.cmds 1 [0x51]))) (.one false (.two false (.int (-1)) (.cmds 1 [0x52]))))
-    (.node (.leaf 0xC1 [0x51]) (.leaf 255 [0x52])) :=
-  .node _ _ _ _ _ (.leaf _ _ 0xC1 _ _ (.cmds _ _)) (.leaf _ _ (-1) _ _ (.cmds _ _))
+    (.node (.leaf 0xC1 [0x51]) (.leaf 255 [0x52])) ∧ (Btc.Taproot.Tree.node (.leaf 0xC1 [0x51]) (.leaf 255 [0x52])).depth ≤ MAX_TREE_DEPTH :=
+  ⟨.node _ _ _ _ _ (.leaf _ _ 0xC1 _ _ (.cmds _ _)) (.leaf _ _ (-1) _ _ (.cmds _ _)), by decide⟩
 example : treeHelperPy Hx (.two true (.one true (.two false (.int 0xC1) (.cmds 1 [0x51]))) (.nil true)) = .error .node := by decide
 example : leafHashPub Hx 256 [] = .error .version ∧ leafHashPub Hx (-1) [] = .error .version ∧
     (leafHashPub Hx 255 []).isOk = true := by decide
